@@ -157,6 +157,18 @@ def run_tlc(
     return r
 
 
+def _beyond_int(x) -> bool:
+    if isinstance(x, bool):
+        return False
+    if isinstance(x, int):
+        return abs(x) > 2147483647
+    if isinstance(x, dict):
+        return any(_beyond_int(v) for v in x.values())
+    if isinstance(x, (list, tuple)):
+        return any(_beyond_int(v) for v in x)
+    return False
+
+
 def validate_traces(module: str, cfg: str, records: list[dict], *, shards: int = 16,
                     tag: str = "trace", timeout: int = 1800, heap: str = "3g", env: dict | None = None) -> tuple[list[dict], int, float]:
     """Write records as ndjson shards, run the TLC trace validator on each shard (one JVM per
@@ -167,6 +179,14 @@ def validate_traces(module: str, cfg: str, records: list[dict], *, shards: int =
     machinery failure."""
     if not records:
         return [], 0, 0.0
+    # TLC integers are 32 bit: a record holding a larger projected value cannot be judged by the spec.  On charts of
+    # the modelled size every projected value is far below that, so such a record is rejected outright.
+    big = [r for r in records if _beyond_int(r)]
+    if big:
+        ids = {id(r) for r in big}
+        rest = [r for r in records if id(r) not in ids]
+        rej, cons, wall = validate_traces(module, cfg, rest, shards=shards, tag=tag, timeout=timeout, heap=heap, env=env)
+        return rej + [{"id": r["id"], "failing": ["beyond_int_range"]} for r in big], cons + len(big), wall
     shards = max(1, min(shards, (len(records) + 19) // 20))
     tdir = OUT / "traces" / tag
     if tdir.exists():
@@ -182,8 +202,14 @@ def validate_traces(module: str, cfg: str, records: list[dict], *, shards: int =
         files.append(f)
 
     def one(i):
-        return run_tlc(module, cfg, workers=1, env={"TRACE_FILE": str(files[i]), **(env or {})},
-                       timeout=timeout, tag=f"{tag}-s{i}-{os.getpid()}", heap=heap)
+        try:
+            return run_tlc(module, cfg, workers=1, env={"TRACE_FILE": str(files[i]), **(env or {})},
+                           timeout=timeout, tag=f"{tag}-s{i}-{os.getpid()}", heap=heap)
+        except MachineryError as e:
+            if "Overflow when computing" not in str(e):
+                raise
+            from types import SimpleNamespace
+            return SimpleNamespace(ok=False, prints=[], raw=str(e))
 
     t0 = time.time()
     with ThreadPoolExecutor(max_workers=min(16, shards)) as ex:
@@ -191,6 +217,19 @@ def validate_traces(module: str, cfg: str, records: list[dict], *, shards: int =
     rejects, consumed = [], 0
     for i, r in enumerate(results):
         done = [p for p in r.prints if isinstance(p, dict) and "done" in p]
+        if (not r.ok or len(done) != 1) and "Overflow when computing" in r.raw:
+            # an intermediate product left 32 bits while judging some record of this shard: isolate it by bisection
+            # and reject it (same reasoning as above); the other records are judged normally
+            if len(parts[i]) == 1:
+                rejects.append({"id": parts[i][0]["id"], "failing": ["beyond_int_range"]})
+                consumed += 1
+            else:
+                h = len(parts[i]) // 2
+                for k, half in enumerate((parts[i][:h], parts[i][h:])):
+                    rj, cs, _ = validate_traces(module, cfg, half, shards=1, tag=f"{tag}-b{i}{k}", timeout=timeout, heap=heap, env=env)
+                    rejects += rj
+                    consumed += cs
+            continue
         if not r.ok or len(done) != 1 or done[0]["done"] != len(parts[i]):
             raise MachineryError(f"trace validator {module} shard {i} incomplete: "
                                  + "\n".join(r.raw.splitlines()[-30:]))
